@@ -52,6 +52,10 @@ TCPCL_RULE = ("one evaluation = one seeded run: 1..8 bundles (1..4 each way when
               "{none, scripted peer stops acknowledging / refuses (each code) after k segments, wire closes or black-holes after message k in either direction}; the scheduler picks the "
               "direction that proceeds from the seed. Non-trivial = every run (at least one transfer); distinct = distinct canonical log.")
 
+SESSION_RULE = (" Session level (half of the workers): two real Clients (contact header, SESS_INIT, established stage with keep-alives, message switch over bytes, TransferManager) on a simulated duplex byte stream "
+                "with seeded chunking (1..65536 bytes per write); one evaluation = 3..14 operations out of {send one bundle either way (0 B .. 70 kB, 6%: around and above the 1 MiB segment MRU), idle for 1 s .. 400 s, "
+                "connection reset after k more bytes in one direction + send + restart, one direction silently swallowing bytes after k more bytes + send + restart, Close on either side + restart}; one transfer in flight at a time.")
+
 C12_RULE = ("two harnesses. MTCP: one evaluation = a seeded sequence of 1..20 sends (payload 1..2000 bytes) interleaved with advances across the 5 s keep-alive ticks on one simulated TCP-like "
             "stream with seeded chunk sizes (1..4096 bytes per read) and, in 60% of the runs, a cut at a seeded byte offset. BBC: one evaluation = one bundle x modem MTU (3..255) x transmission id: "
             "the clean fragment train is judged, then EVERY single drop, duplication and adjacent swap of the train is applied in turn (enumerated), then 2..6 seeded multi-fault patterns (<16 losses "
@@ -128,12 +132,15 @@ PROPS = {
             "assumptions": COMMON_ASSUME + ["BBC: the medium collects a sender's whole train before delivering it (the sender never sees a failure fragment while it is still sending)",
                                             "MTCP: a write on a broken connection fails immediately (no kernel send buffer that accepts one more write)"],
             "required_probes": ["send_after_cut", "clean_connection", "frag_drop", "frag_dup", "frag_swap", "interleaved_transmissions"]},
-    "C11": {"pkg": "pkg/cla/tcpclv4/internal/utils", "binary": "tcpcl.test", "harness": "tcpcl", "focus": "C11", "variants": [""],
-            "budget": {"quick": 45, "thorough": 900}, "level": "exploration", "rule": TCPCL_RULE,
-            "real": ["utils.TransferManager (Send, handle)", "utils.OutgoingTransfer / IncomingTransfer", "msgs.DataTransmissionMessage / DataAcknowledgementMessage / TransferRefusalMessage values", "bpv7 codec"],
-            "stub": ["the byte stream, message codec on the wire and the TCPCL session stages (contact header, SESS_INIT, keep-alive, SESS_TERM): not part of this level - messages travel as values over simulated FIFO channels", "TCP / WebSocket sockets"],
+    "C11": {"parts": [
+                {"pkg": "pkg/cla/tcpclv4/internal/utils", "binary": "tcpcl.test", "harness": "tcpcl", "variants": [""]},
+                {"pkg": "pkg/cla/tcpclv4", "binary": "tcpcl-session.test", "harness": "tcpcl-session", "variants": [""]}],
+            "focus": "C11", "budget": {"quick": 45, "thorough": 900}, "level": "exploration", "rule": TCPCL_RULE + SESSION_RULE,
+            "real": ["utils.TransferManager (Send, handle)", "utils.OutgoingTransfer / IncomingTransfer", "msgs.DataTransmissionMessage / DataAcknowledgementMessage / TransferRefusalMessage values", "bpv7 codec",
+                     "session level: tcpclv4.Client (Start, handle, Send, Close, restart of the active side), stages.StageHandler with Contact / SessInit / SessEstablished stages, utils.KeepaliveTicker, utils.MessageSwitchReaderWriter and all message codecs on the byte stream"],
+            "stub": ["message level: messages travel as values over simulated FIFO channels (no byte stream, no stages)", "session level: TCP socket -> simulated duplex byte stream (chunking, reset, one-way blackhole); the listener's accept loop is replaced by creating the passive Client on the stream's other end (as newClientTCP does)", "TCP / WebSocket sockets"],
             "assumptions": COMMON_ASSUME + ["the wire buffers without bound behind the schedule point (like socket buffers), channels towards the managers hold 32 messages like the real message switch"],
-            "required_probes": ["send_success", "send_error", "m_divides_L", "wire_close"]},
+            "required_probes": ["send_success", "send_error", "m_divides_L", "wire_close", "session_established", "send_ok", "stream_cut", "stream_stall", "idle_keepalive_periods", "restart_after_loss"]},
     "C08": {"pkg": "pkg/routing", "binary": "routing.test", "harness": "store", "focus": "C08", "variants": [""],
             "budget": {"quick": 60, "thorough": 1200}, "level": "exploration", "rule": STORE_RULE,
             "real": ["storage.Store on badgerhold/badger with real files under /dev/shm", "storage.BundleItem/BundlePart (part files, Load, IsComplete)", "bpv7 reassembly as used by the store", "routing.Core started on the post-crash directory"],
@@ -186,8 +193,11 @@ MANIFEST_TEXT = {
             "design_ref": "DESIGN.md §4 C12, App. A.7", "note": "trusted: the stream and medium models, synctest; sampling over bundles/MTUs/offsets, enumeration of single faults per train", "technique": DST},
     "C11": {"text": "Real sending and receiving TransferManagers (or a scripted peer) on a simulated message wire under the fake clock: the outgoing XFER_SEGMENT sequence (size <= m, concatenation = encoding, "
                     "START/END placement), exactly-one identical bundle at the receiver, 'Send returned nil => the receiver has the complete transfer', an error within the acknowledgement timeout otherwise; "
-                    "seeded over (L, m) with divisor bias, concurrent bidirectional transfers, non-acking / refusing peers and wire loss after every message index. Session level (stages, byte stream, WebSocket) is not simulated.",
-            "design_ref": "DESIGN.md §4 C11 (level A), App. A.8", "note": "trusted: synctest fake clock, the wire model, harness oracles; level B (two Clients over a byte stream) not built; sampling only", "technique": DST},
+                    "seeded over (L, m) with divisor bias, concurrent bidirectional transfers, non-acking / refusing peers and wire loss after every message index. Session level: two real Clients on a simulated "
+                    "byte stream (chunking, reset or one-way blackhole at a byte offset, idle periods across many keep-alive intervals, Close, restart): Send nil => the peer's channel delivered exactly that bundle once; nothing "
+                    "delivered that was not sent; a Send on an intact session succeeds and every Send returns within 180 simulated seconds; an intact idle session stays up, a lost one is torn down on both sides within 120 s. "
+                    "One transfer in flight at a time at session level (concurrent transfers only at message level); WebSocket transport not simulated.",
+            "design_ref": "DESIGN.md §4 C11, §8.3, App. A.8", "note": "trusted: synctest fake clock, the wire / stream models, harness oracles; sampling only", "technique": DST},
     "C08": {"text": "Seeded operation sequences on the real store against a reference map, with a simulated process kill at every instrumented point of Push/Delete "
                     "(durable state = directory contents at that instant; a store and a node are started on it), forced orders of two concurrent fragment pushes, and "
                     "close/reopen; oracle: exact lookups, byte-identical parts, pending query, one record per bundle with each distinct fragment once, complete iff covered, reassembly = original.",
